@@ -8,7 +8,7 @@ E4 the decision tree returns a ReadAssignment on every path (None only where re-
 import ast
 import re
 
-from ..engine.program import AnalysisError, dotted, src, walk_no_nested, enclosing_function
+from ..engine.program import AnalysisError, dotted, src, walk_no_nested, enclosing_function, call_name
 from ..engine.enumtables import EventTables, member_uses, ISO
 from ..engine import flow
 
@@ -434,7 +434,74 @@ def e6(prog, ctx):
     ctx.floor("E6", "tolerance use signatures", n, 20)
 
 
+PRESET_ORDER = ["exact", "precise", "default", "loose"]       # docs/cmd.md: increasing tolerance
+
+
+def e8(prog, ctx):
+    """The matching presets form a chain of increasing tolerance, and their delta is the documented one."""
+    import os
+    import re as _re
+    f = prog.func("isoquant.py", "set_matching_options")
+    fields = None
+    table = None
+    for st in walk_no_nested(f):
+        if isinstance(st, ast.Assign) and isinstance(st.value, ast.Call) and (call_name(st.value) or "").endswith("namedtuple") \
+                and len(st.value.args) == 2 and isinstance(st.value.args[1], (ast.Tuple, ast.List)):
+            fields = [e.value for e in st.value.args[1].elts if isinstance(e, ast.Constant)]
+            ctor = st.targets[0].id if isinstance(st.targets[0], ast.Name) else None
+        if isinstance(st, ast.Assign) and isinstance(st.value, ast.Dict) and all(isinstance(k, ast.Constant) for k in st.value.keys) \
+                and {k.value for k in st.value.keys} >= set(PRESET_ORDER):
+            table = st
+    if not fields or table is None:
+        raise AnalysisError("set_matching_options: preset namedtuple / table not found")
+    rows = {}
+    for k, v in zip(table.value.keys, table.value.values):
+        if not isinstance(v, ast.Call):
+            raise AnalysisError("set_matching_options: preset %s is not a constructor call" % k.value)
+        row = {}
+        for name, a in zip(fields, v.args):
+            row[name] = a
+        for kw in v.keywords:
+            row[kw.arg] = kw.value
+        if set(row) != set(fields):
+            ctx.fail("E8", v, f._qualname, "preset %s" % k.value, "preset %s does not give every field exactly once (%s)" % (k.value, sorted(set(fields) ^ set(row))))
+        rows[k.value] = {n: (x.value if isinstance(x, ast.Constant) else None) for n, x in row.items()}
+    n = 0
+    for name in fields:
+        vals = [rows[p].get(name) for p in PRESET_ORDER]
+        if not all(isinstance(x, (int, float)) and not isinstance(x, bool) for x in vals):
+            continue
+        n += 1
+        bad = [(PRESET_ORDER[i], vals[i], PRESET_ORDER[i + 1], vals[i + 1]) for i in range(len(vals) - 1) if vals[i] > vals[i + 1]]
+        if bad:
+            a, x, b, y = bad[0]
+            ctx.fail("E8", table, f._qualname, "%s: %s" % (name, dict(zip(PRESET_ORDER, vals))),
+                     "tolerance %s is %s under the stricter preset '%s' but %s under '%s': the presets are documented as a chain of increasing "
+                     "tolerance (exact < precise < default < loose), so a read accepted as consistent under the stricter preset would be "
+                     "rejected under the looser one" % (name, x, a, y, b))
+        else:
+            ctx.ok("E8", "isoquant.py:%d" % table.lineno, "%s is non-decreasing along exact < precise < default < loose: %s" % (name, vals))
+    # documented delta per preset
+    doc = os.path.join(prog.root, "docs", "cmd.md")
+    if os.path.exists(doc):
+        text = open(doc, encoding="utf-8").read()
+        for pname in PRESET_ORDER:
+            m = _re.search(r"`%s`\s*-\s*delta\s*=\s*(\d+)" % pname, text)
+            if not m:
+                continue
+            n += 1
+            if rows[pname].get("delta") != int(m.group(1)):
+                ctx.fail("E8", table, f._qualname, "delta of preset %s" % pname, "docs/cmd.md documents delta = %s for --matching_strategy %s, the "
+                         "table says %s" % (m.group(1), pname, rows[pname].get("delta")))
+            else:
+                ctx.ok("E8", "isoquant.py:%d" % table.lineno, "delta of preset %s equals the documented %s" % (pname, m.group(1)))
+    ctx.floor("E8", "numeric preset fields + documented deltas", n, 8)
+
+
 def run(prog, ctx):
+    ctx.rule("E8", "preset table of set_matching_options: every numeric tolerance is non-decreasing along the documented chain "
+                   "exact < precise < default < loose, every preset gives every field once, and delta equals the value docs/cmd.md documents")
+    e8(prog, ctx)
     ctx.rule("E6", "who-may-use table for tolerances: every consumption of a params.<tolerance> attribute in the assigner, comparator, "
                    "profile and polyA modules (local aliases followed) has a use signature - callee#argument, comparison, assignment - "
                    "that is in the table confirmed by reading; a tolerance appearing in a new role needs triage")
@@ -442,7 +509,7 @@ def run(prog, ctx):
     ctx.rule("E7", "the polyA (+ strand) and polyT (- strand) twins of src/polya_verification.py are exact mirror images under the typed "
                    "coordinate reflection of C11/X1: a read following an isoform is verified identically on both strands")
     from . import x1_pairs
-    n7 = x1_pairs.run_function_pairs(prog, ctx, "E7", {"src/polya_verification.py"})
+    n7 = x1_pairs.run_function_pairs(prog, ctx, "E7", {"src/polya_verification.py", "src/polya_finder.py"})
     ctx.floor("E7", "polyA / polyT function pairs", n7, 5)
     ctx.rule("E5", "in the comparators, every `f(a) - f(b) <(=) tolerance(params)` with like terms on both sides is wrapped in abs() "
                    "(one-sided comparison rule)")
